@@ -18,6 +18,8 @@ def run(chk: core.Check):
         "hand-written LTS Model_C11.v (shared with C11/C05): worker loop test, cached_test_func stop test, count_failure, consumer break; "
         "atomic steps between hook points",
         "forced-schedule controller + guarded hooks in /repo; behaviour discovery on the real engine",
+        "translator harness/translate.py (fail-closed Python-ast -> Gallina for count_failure / is_stopped / _STATUS_ORDER, regenerated every run, "
+        "tied to the model by the C12_gen_*_eq theorems)",
         "NOT modelled (foreign code, contracts only exercised by the free-run oracle): Hypothesis max_examples / stateful_step_count, "
         "pyrate-limiter windows and runtime jitter, the stateful phase's own failure counting",
     ]
@@ -25,6 +27,14 @@ def run(chk: core.Check):
                        "pyrate-limiter blocks try_acquire until the bucket has room (checked only up to +workers jitter per window)"]
     chk.rule = ("forced schedules as in C11 but biased to Stop labels and max_failures in {1,2}; free runs over (max_examples 1-12, workers 1-3, "
                 "max_failures, unique_inputs, rate limit, stop at a random event); non-trivial = a limit or a stop actually took effect in the run")
+    # regenerate the integer kernel from the Python source (fail closed), then build: GenProofs_C12.v must still check
+    from harness import translate
+    from harness.props import c12_gen
+
+    try:
+        chk.stages["regenerated_model"] = c12_gen.regenerate()
+    except (translate.Untranslatable, OSError, SyntaxError) as exc:
+        chk.broken.append({"kind": "translator", "what": "engine/control.py no longer fits the translated subset", "detail": f"{type(exc).__name__}: {exc}"})
     chk.proofs(["Common", "C11", "C12"])
     rng = chk.rng
     corpus = [json.loads(p.read_text()) for p in sorted((core.VERIF / "corpus" / "C12").glob("*.json"))]
